@@ -49,23 +49,24 @@ type c09KV struct {
 }
 
 type c09Case struct {
-	Dest     string     `json:"dest"` // struct | cat:<name> | map:str | map:iface | map:strs | map:int | nonstruct
-	Fields   []c09Field `json:"fields,omitempty"`
-	InitSeed int64      `json:"init_seed"`
-	Op       string     `json:"op"` // param | query | header | bind | body (BindBody alone)
-	Method   string     `json:"method,omitempty"`
-	Params   []c09KV    `json:"params,omitempty"` // one value each
-	Query    []c09KV    `json:"query,omitempty"`
-	RawTail  string     `json:"raw_tail,omitempty"` // appended verbatim to the encoded query string (malformed pairs: `&x=%zz`, `;a=1` …)
-	Header   []c09KV    `json:"header,omitempty"`
-	CType    string     `json:"ctype,omitempty"`
-	BodyKind string     `json:"body_kind,omitempty"` // none | raw | form | multipart
-	Body     string     `json:"body,omitempty"`      // raw
-	Form     []c09KV    `json:"form,omitempty"`      // form / multipart
-	Files    []c09KV    `json:"files,omitempty"`     // multipart: field name -> file names
-	Boundary string     `json:"boundary,omitempty"`  // multipart: boundary written into the BODY (default c09boundary)
-	Truncate int        `json:"truncate,omitempty"`  // multipart: cut that many bytes off the end of the body
-	LenMode  string     `json:"len_mode,omitempty"`  // "" exact | "unknown" (-1) | "zero" (0 although a body is present)
+	Dest     string        `json:"dest"`           // struct | cat:<name> | twin:<family>:<k> | map:str | map:iface | map:strs | map:int | nonstruct
+	Warm     []c09WarmStep `json:"warm,omitempty"` // binds made before the one under test, in the same process
+	Fields   []c09Field    `json:"fields,omitempty"`
+	InitSeed int64         `json:"init_seed"`
+	Op       string        `json:"op"` // param | query | header | bind | body (BindBody alone)
+	Method   string        `json:"method,omitempty"`
+	Params   []c09KV       `json:"params,omitempty"` // one value each
+	Query    []c09KV       `json:"query,omitempty"`
+	RawTail  string        `json:"raw_tail,omitempty"` // appended verbatim to the encoded query string (malformed pairs: `&x=%zz`, `;a=1` …)
+	Header   []c09KV       `json:"header,omitempty"`
+	CType    string        `json:"ctype,omitempty"`
+	BodyKind string        `json:"body_kind,omitempty"` // none | raw | form | multipart
+	Body     string        `json:"body,omitempty"`      // raw
+	Form     []c09KV       `json:"form,omitempty"`      // form / multipart
+	Files    []c09KV       `json:"files,omitempty"`     // multipart: field name -> file names
+	Boundary string        `json:"boundary,omitempty"`  // multipart: boundary written into the BODY (default c09boundary)
+	Truncate int           `json:"truncate,omitempty"`  // multipart: cut that many bytes off the end of the body
+	LenMode  string        `json:"len_mode,omitempty"`  // "" exact | "unknown" (-1) | "zero" (0 although a body is present)
 }
 
 // ---------- hand catalogue ----------
@@ -253,6 +254,12 @@ func c09DestType(c *c09Case) (reflect.Type, error) {
 		t, ok := c09Catalogue[strings.TrimPrefix(c.Dest, "cat:")]
 		if !ok {
 			return nil, fmt.Errorf("unknown catalogue entry %s", c.Dest)
+		}
+		return t, nil
+	case strings.HasPrefix(c.Dest, "twin:"):
+		t, ok := c09TwinType(c.Dest)
+		if !ok {
+			return nil, fmt.Errorf("unknown twin %s", c.Dest)
 		}
 		return t, nil
 	case c.Dest == "map:str":
@@ -987,6 +994,12 @@ func c09Run(ci any) (res Result) {
 	fail := func(format string, a ...any) {
 		if oracle == "" {
 			oracle = fmt.Sprintf(format, a...)
+		}
+	}
+	if len(c.Warm) > 0 {
+		tags = append(tags, fmt.Sprintf("warm-up:%d", len(c.Warm)))
+		if p := c09RunWarm(c, t); p != "" {
+			return Result{Obs: "panic", Oracle: p, Tags: tags, Nontrivial: true}
 		}
 	}
 	ctx := c09Context(c)
